@@ -3,3 +3,4 @@ import UtpVerif.Model.SeqNr
 import UtpVerif.Model.Rtte
 import UtpVerif.Props.C09
 import UtpVerif.Props.C16
+import UtpVerif.Props.C11
